@@ -379,7 +379,17 @@ func (c *vC10Case) live(r *vRand, pool [][]byte, compact, cleans bool) {
 	start := cands[r.intn(len(cands))]
 	ctx, cancel := context.WithCancel(context.Background())
 	defer cancel()
-	sub, st := c.p.Subscribe(ctx, &client.SubscribeRequest{Stream: c.name, Partition: 0, StartPosition: client.StartPosition_OFFSET, StartOffset: start})
+	req := &client.SubscribeRequest{Stream: c.name, Partition: 0, StartPosition: client.StartPosition_OFFSET, StartOffset: start}
+	// one in three: a subscriber that only wants what comes after now (its reader starts beyond the HW);
+	// several messages are then appended, across segment boundaries, and committed in one step
+	newOnly := r.intn(3) == 0
+	if newOnly {
+		req = &client.SubscribeRequest{Stream: c.name, Partition: 0, StartPosition: client.StartPosition_NEW_ONLY}
+		// (a start beyond the HW is capped to HW+1: the contract pinned by TestReaderCommittedCapOffset and
+		// TestSubscribeOffsetOverflow, DESIGN 0.3 -- uncommitted messages below the log end are delivered too)
+		start = c.hw + 1
+	}
+	sub, st := c.p.Subscribe(ctx, req)
 	if st != nil {
 		c.violation("live-subscribe-refused", st.Message())
 		return
@@ -416,6 +426,30 @@ func (c *vC10Case) live(r *vRand, pool [][]byte, compact, cleans bool) {
 		return w
 	}
 	got1, e1 := drain()
+	if newOnly {
+		if e1 != "" || len(got1) != 0 {
+			c.violation("live-new-only", fmt.Sprintf("NEW_ONLY subscription (hw %d) delivered %v %q before anything was committed", c.hw, got1, e1))
+			return
+		}
+		c.appendMsgs(r, 3+r.intn(6), pool)
+		c.setHW(c.p.log.NewestOffset())
+		got, e := drain()
+		if w := want(start, c.hw); e != "" || fmt.Sprint(got) != fmt.Sprint(w) {
+			c.violation("live-new-only", fmt.Sprintf("NEW_ONLY subscription opened with hw %d; messages appended and everything committed in one step (hw %d): delivered %v %q, the log holds %v above the old hw", start-1, c.hw, got, e, w))
+		}
+		c.stats["live/new-only"]++
+		cancel()
+		sub.Close()
+		deadline := time.Now().Add(time.Second)
+		for vC13SubscriberCount(c.p) != 0 && time.Now().Before(deadline) {
+			select {
+			case <-sub.Errors():
+			default:
+			}
+			time.Sleep(200 * time.Microsecond)
+		}
+		return
+	}
 	if w := want(start, c.hw); e1 != "" || fmt.Sprint(got1) != fmt.Sprint(w) {
 		c.violation("live-first-batch", fmt.Sprintf("live subscription from %d (hw %d) delivered %v %q, retained committed messages are %v", start, c.hw, got1, e1, w))
 		return
